@@ -344,9 +344,13 @@ def main(argv=None):
                         i2, o2, _ = run_impl(("shrink", p, cand), Event, flood, labels)
                         b2 = oracle(P, i2, o2)
                         return b2 not in (None, "skip") and "C10:" + b2.split(":")[0] == sig
+                    full = (evs, inp, out, bad)
                     evs = common.shrink_list(evs, still_fails)
                     inp, out, _ = run_impl(("shrink", p, evs), Event, flood, labels)
                     bad = oracle(P, inp, out)
+                    if bad in (None, "skip"):      # round 3: not reproduced by the same call made again alone
+                        evs, inp, out, bad = full
+                        bad += " [history: the same input called again on fresh objects does not fail - the outcome depends on earlier calls in this process]"
                 ck.failing_input(sig, bad,
                                  {"pulsetime_s": p, "pulsetime_us": P, "events_us_rel": rel(inp),
                                   "impl_output_us_rel": rel(out),
